@@ -53,3 +53,5 @@ Definition holds_kppi (c : case) : bool :=
 
 (* exact values of the Legendre weights the poles use: (2l+1) P_l(mu2) for even l *)
 Definition run_pn (c : Q * Z) : val := VQ (P_n_even (fst c) (snd c)).
+(* either parity, argument mu (x = mu^2) *)
+Definition run_pn_mu (c : Q * Z) : val := VQ (P_n_mu (fst c) (snd c)).
